@@ -41,10 +41,14 @@ def run(chk):
         if not thorough and n > 260:
             ks = sorted(set(list(range(1, 120)) + list(range(120, n + 1, 5)) + [n - 1, n]))
         for k in ks:
-            ops.append("zoo-read %s %s fail=%d" % (c.zoo.name, c.impl_file, k)); meta.append((c, k, ph[k - 1]))
+            ops.append("zoo-read %s %s fail=%d" % (c.zoo.name, c.impl_file, k)); meta.append((c, k, ph[k - 1], False))
+            # the failing Read hands over its bytes together with the error (legal for an io.Reader; io.ReadFull
+            # then drops the error when the request is complete): the rows must be right or the error reported
+            if k % (1 if thorough else 3) == 0:
+                ops.append("zoo-read %s %s faild=%d" % (c.zoo.name, c.impl_file, k)); meta.append((c, k, ph[k - 1], True))
     res = common.chunked_parallel(pair.impl, ops, workers=8, chunk=300)
     nontrivial = set()
-    for (c, k, ph), r in zip(meta, res):
+    for (c, k, ph, with_data), r in zip(meta, res):
         got = filelevel.strip_calls(r)
         want_recs = filelevel.expected_read(c).split("recs=")[1].split(";")
         # predicted from the fault-free trace: the API call during which call k happens reports the error
@@ -57,17 +61,19 @@ def run(chk):
             recs = [] if f.get("recs", "-") == "-" else f["recs"].split(";")
             ok = (f.get("open") == "ok" and f.get("err") == "err" and int(f.get("nexts", -1)) == j - 1 and recs == want_recs[:j - 1])
             want = "open=ok nexts=%d err=err and the first %d rows correct" % (j - 1, j - 1)
+        if not ok and with_data and got == filelevel.expected_read(c):
+            ok = True            # the data arrived in full: a complete and correct read is as good as a reported error
         if not ok:
             outcome = "panic" if "panic" in got else got.split(" recs=")[0]
-            prop_fail.append({"case": c.key()[:2000] + " fail=%d (during %s)" % (k, ph), "key": {"phase": "open" if ph == "open" else "next", "outcome": outcome[:60], "codec": c.codec},
+            prop_fail.append({"case": c.key()[:2000] + " fail%s=%d (during %s)" % ("d" if with_data else "", k, ph), "key": {"phase": "open" if ph == "open" else "next", "outcome": outcome[:60], "codec": c.codec, "with_data": with_data},
                               "clause": "source failure at call %d (during %s) not reported / wrong rows delivered" % (k, ph), "got": got[:400], "want": want})
         else:
-            nontrivial.add((c.m_ops, c.codec, k))
+            nontrivial.add((c.m_ops, c.codec, k, with_data))
     cov.update({
         "obligations": pr["obligations"], "discharged": pr["discharged"], "axioms": pr["axioms"],
         "checker_cmd": "cd lean && lake build %s" % MODULE, "trusted_base": TRUSTED_BASE, "forbidden_constructs": pr["forbidden_constructs"],
         "evaluations": len(ops), "distinct_nontrivial": len(nontrivial), "exhaustive": bool(thorough), "workloads": len(cases),
-        "rule": "for every workload (5 structs x 3 codecs) a fault-free traced run maps each Read/Seek call index k of the source to the API call it occurs in (open, j-th Next); then the source fails at call k for every k (thorough) / every k < 120 and every 5th beyond (quick); the constructor must fail for faults during open, otherwise Next must be false with Error() != nil after exactly the first j-1 correct rows; never a panic; non-trivial = distinct (workload, k) with the predicted outcome",
+        "rule": "for every workload (5 structs x 3 codecs) a fault-free traced run maps each Read/Seek call index k of the source to the API call it occurs in (open, j-th Next); then the source fails at call k for every k (thorough) / every k < 120 and every 5th beyond (quick); the constructor must fail for faults during open, otherwise Next must be false with Error() != nil after exactly the first j-1 correct rows; never a panic; the same with a failing Read that delivers its bytes together with the error (then a complete correct read is also accepted); non-trivial = distinct (workload, k) with the predicted outcome",
         "samples": [ops[0][:160], ops[len(ops) // 2][:160]],
         "tie": "reader model = generated reader on the fault-free run; per-k outcome = prediction from the fault-free trace",
         "tie_disagreements": len(tie_breaks), "property_failures_on_impl": len(prop_fail),
